@@ -422,7 +422,7 @@ Definition create_archive (f : create_flags) (output : str) (pr : pipe_result) (
 (* ------------------------------------------------------------------ main *)
 Inductive command :=
 | CmdCreate (f : create_flags) (output : str) (pr : pipe_result)
-| CmdInfo (arc : str)                                   (* "not yet implemented": prints to stderr, Ok(()) *)
+| CmdInfo (arc : str)                                   (* "not yet implemented": eprintln!, then bail! *)
 | CmdGetset (arc : str) (samples : list str) (prefix : option str) (output : option str)
 | CmdListset (arc : str) (output : option str)
 | CmdListctg (arc : str) (samples : list str) (output : option str).
@@ -431,7 +431,7 @@ Definition run_main (decode : str -> option archive) (tmp : str) (c : command) (
   : exitc * pstate :=
   match c with
   | CmdCreate f o pr => create_archive f o pr st
-  | CmdInfo _ => (Zero, st)
+  | CmdInfo _ => (NonZero, st)      (* the archive is not even opened; before the fix this was Ok(()) *)
   | CmdGetset a s p o => getset_command decode a s p o tmp st
   | CmdListset a o => listset_command decode a o st
   | CmdListctg a s o => listctg_command decode a s o st
